@@ -35,6 +35,21 @@ CHECKS = {
     note=BASE + "layers after the accumulator are an uninterpreted function except for the lane lemmas; no 64-bit key collisions; the evaluator hook does not see cache-answered evaluations and runs single-threaded.",
     technique="Lean 4 proof (refinement of the incremental first-layer state machine for all histories; index symmetry; lane arithmetic; cache transparency) + differential of the model against the real Position/NNEvaluator after every operation + fresh-evaluator, symmetry-pair, SIMD cross-build and hooked-search predicates",
     design="6/C07, notes/C07.md"),
+ "C06": dict(
+    text="Lean theorems (Props/C06.lean, 21): 1 <= soft <= hard <= time - min(BufferTime, time*9/10) for every clock input with the mover's clock >= 1 ms (shown to be the strongest uniform statement: below 10/9 of the buffer the code keeps 90% of the clock), movetime, single-legal-move clamp, ponderhit limits, stop rule: a search thread stops by max(t0, tStart+hard) + one polling interval for every event sequence, and within one polling interval after the limits are zeroed. The integer slices of computeTimeLimit are regenerated from the C++ by the translator (Bridge/Time). Floating point enters through two stated hypotheses checked on every run.",
+    note=BASE + "wall-clock behaviour is not claimed: the real engine runs under the TEXEL_VERIF virtual clock driven by searched nodes; IEEE-double steps abstracted by two hypotheses (scale m >= m, cast >= 0) checked on every run; known finding C06-maxnps-sleep (MaxNPS throttle sleeps make the polling interval unbounded).",
+    technique="Lean 4 proof (allocation arithmetic by omega, stop-rule state machine) + translator-regenerated integer slices + differential of the real computeTimeLimit/shouldStop + real engine under a deterministic virtual clock checked against the proved deadlines",
+    design="6/C06, notes/C06.md"),
+ "C18": dict(
+    text="Lean theorems (Props/C18.lean, 16) on a byte-level model (book = List UInt8): probe_safe for arbitrary bytes and any random draw (result is none or a legal move), only_own_key for any file, bsearch_complete and positive_weight_reachable for sorted books, polyglot move codec round trip incl. castling, termination of the binary search, weight-sum bound for the repaired 64-bit arithmetic, witnesses for the three pre-fix defects. The polyglot hash key is tied by differential and an independent Python oracle only.",
+    note=BASE + "the 781 polyglot random constants are regenerated from polyglot.cpp and compared on every run; the built-in book's table lookup is checked on the implementation only; quick tier needs the asan variant and sparse files up to 4 GiB.",
+    technique="Lean 4 proof over a byte-level book model + differential on generated / truncated / corrupted / unsorted books + legality and key predicates on the implementation's answers (ASan/UBSan for malformed families)",
+    design="6/C18, notes/C18.md"),
+ "C19": dict(
+    text="Lean theorems (Props/C19.lean, 16): the fixed point (negamax, both expansion costs, both path errors, shortest depth, parent/child consistency) is preserved by setSearchResult, addPending/removePending, updateScores and addPos incl. transpositions and depth propagation, for the repaired algorithm, via one generic propagation theorem over a ranked DAG; save/load round trip; uniqueness of the fixed point; witness that the pinned commit's updateNegaMax breaks it.",
+    note=BASE + "completeness of the parent/child links against the chess rules is an explicit hypothesis (AddOk) checked on the implementation; extendBook's search loop and books of >= 2^31-2 nodes are not covered.",
+    technique="Lean 4 proof (invariant preservation over a ranked DAG, refinement of the three propagation passes) + differential of every changed node field after every operation + defining equations re-evaluated on the implementation's fields",
+    design="6/C19, notes/C19.md"),
  "C08": dict(
     text="Lean theorems (Props/C08.lean + Bridge/TT.lean): the index/field/score kernels are regenerated from the C++ source by the cxx2lean translator on every run and proved equal to the hand model (17 Bridge theorems); bucket index aligned and in range for every size >= 512 and every 64-bit key; field layout disjoint and lossless; xor validation makes any validating pair of words bit-identical to one unit record (relaxed-atomic over-approximation); ply shift exact; hash buckets disjoint from the resident-tablebase bytes; insert writes only inside its bucket. The universally quantified part is proved; the tie to the C++ is a differential run.",
     note=BASE + "no 64-bit key/xor coincidences (explicit hypothesis); relaxed atomics modelled as 'a load returns some previously written value of that word'; harness reads private members.",
